@@ -648,6 +648,14 @@ pub proof fn lemma_goi_wfl<'a, T: Clone + PartialEq>(o: Slots<'a, T>, f: Slots<'
     ensures wfl(f),
 { reveal(goi_post); }
 
+/// glue for the builders' stub `table_get_or_insert(n) ensures *r == n` (trusted/robdd_cells.rs, dnnf_cells.rs): with
+/// strict equality, and `==` on the element type implying structural equality (proved for BddNode in unit ptr), the
+/// returned reference points to a value equal to the requested element
+pub proof fn lemma_goi_value<'a, T: Clone + PartialEq>(o: Slots<'a, T>, f: Slots<'a, T>, hash: u64, elem: T, r: &'a T)
+    requires goi_post(o, f, hash, elem, false, r), forall|a: T, b: T| #[trigger] a.eq_spec(&b) ==> a == b,
+    ensures *r == elem,
+{ reveal(goi_post); }
+
 /// the search moves on to the next slot
 pub proof fn lemma_search_step<'a, T: Clone + PartialEq>(o: Slots<'a, T>, g: Slots<'a, T>, cap: int, hash: u64, elem: T, by_hash: bool, pos: int, psl: int)
     requires
